@@ -16,13 +16,16 @@ from falcon.constants import WebSocketPayloadType  # noqa: E402
 
 from engine.envmodels import MiniLoop, running_loop  # noqa: E402
 from engine.rt import fail  # noqa: E402
+import harness.c17 as c17  # noqa: E402
 
 PROPERTY = 'C18'
 UNITS = ['falcon.asgi.ws._BufferedReceiver.start/stop/receive/_pump', 'falcon.asgi.ws.WebSocket.accept/receive_text/send_text/close/'
          '_send/_receive/closed/ready']
 STUBS = [
     'event loop = engine.envmodels.MiniLoop (FIFO ready queue like asyncio, real asyncio.Future/Task objects); the server side is the '
-    'harness: receive() returns a future the schedule resolves, send() records the event',
+    'harness: receive() returns a future the schedule resolves, send() records the event; with burst > 0 up to 2 further client events '
+    'arrive together with a delivery and wait in a server-side queue, from which the next receive() returns without yielding',
+    'app_* partitions: the whole falcon.asgi.App session driver and oracle of C17 (harness.c17.session_case) + leftover-task check',
     'the client stays silent after its scripted messages: an application blocked in receive with nothing left to deliver is a legal '
     'end state, a receive that could be satisfied but is left waiting is a lost wake-up',
     '"promptly" for senders: a send that starts after the pump task has been resumed with the disconnect event must raise '
@@ -34,7 +37,7 @@ BUDGET = {'quick': 300, 'thorough': 900}
 OPS = {0: 'receive', 1: 'send', 2: 'close', 3: 'yield', 4: 'receive-then-cancel'}
 
 
-def scenario(k, cap, disc, script, choices):
+def scenario(k, cap, disc, script, choices, burst=0):
     loop = MiniLoop()
     with running_loop(loop):
         pending = []
@@ -42,9 +45,17 @@ def scenario(k, cap, disc, script, choices):
         msgs = [{'type': 'websocket.receive', 'text': str(i)} for i in range(k)]
         if disc:
             msgs.append({'type': 'websocket.disconnect', 'code': 1001})
-        st = {'delivered': 0, 'disc_handle': None, 'disc_seen_step': None}
+        st = {'delivered': 0, 'arrived': 0, 'disc_handle': None, 'disc_seen_step': None}
+        inq = []    # events that reached the server while nobody was receiving (burst > 0 only)
 
         async def server_receive():
+            if inq:
+                # a server with its own inbound queue hands a waiting event over without yielding to the loop
+                ev = inq.pop(0)
+                st['delivered'] += 1
+                if ev['type'] == 'websocket.disconnect':
+                    st['disc_seen_step'] = loop.steps
+                return ev
             f = loop.create_future()
             pending.append(f)
             return await f
@@ -95,7 +106,7 @@ def scenario(k, cap, disc, script, choices):
             if guard > 600:
                 outcome = 'livelock'
                 break
-            can_deliver = bool(pending) and st['delivered'] < len(msgs)
+            can_deliver = bool(pending) and st['arrived'] < len(msgs)
             can_step = bool(loop._ready)
             if can_deliver and can_step:
                 c = choices[ci] if ci < len(choices) else False
@@ -110,12 +121,17 @@ def scenario(k, cap, disc, script, choices):
             if c:
                 f = pending.pop(0)
                 if not f.cancelled():
-                    ev = msgs[st['delivered']]
+                    ev = msgs[st['arrived']]
                     before = len(loop._ready)
                     f.set_result(ev)
+                    st['arrived'] += 1
                     st['delivered'] += 1
                     if ev['type'] == 'websocket.disconnect' and len(loop._ready) > before:
                         st['disc_handle'] = loop._ready[-1]    # the wake-up of the task that awaited this receive()
+                    for _ in range(burst):     # the next client events arrive back-to-back with this one
+                        if st['arrived'] < len(msgs):
+                            inq.append(msgs[st['arrived']])
+                            st['arrived'] += 1
             else:
                 h = loop.run_one()
                 if h is st['disc_handle']:
@@ -130,10 +146,10 @@ def scenario(k, cap, disc, script, choices):
         return outcome, log, sent, maxq, maxheld, ws, st
 
 
-def check_case(k, cap, disc, script, choices):
-    outcome, log, sent, maxq, maxheld, ws, st = scenario(k, cap, disc, script, choices)
-    ctx = lambda: 'k=%r capacity=%r disconnect=%r script=%r schedule=%r -> %s log=%r' % (  # noqa: E731
-        k, cap, disc, [OPS[o] for o in script], choices, outcome, log)
+def check_case(k, cap, disc, script, choices, burst=0):
+    outcome, log, sent, maxq, maxheld, ws, st = scenario(k, cap, disc, script, choices, burst)
+    ctx = lambda: 'k=%r capacity=%r disconnect=%r script=%r schedule=%r burst=%r -> %s log=%r' % (  # noqa: E731
+        k, cap, disc, [OPS[o] for o in script], choices, burst, outcome, log)
     if outcome == 'livelock':
         return fail(lambda: 'livelock: ' + ctx())
     if maxq > cap:
@@ -175,20 +191,52 @@ def check_case(k, cap, disc, script, choices):
 
 
 # ---------------------------------------------------------------- partitions
+def app_case(ops, queue, ci, fail_send, choices, burst):
+    """Whole-app session (C17's driver and oracle), then: once the application callable has returned and the loop has run dry,
+    no task that falcon created may be left unfinished (closing / cleaning up stops the background reader)."""
+    r = c17.session_case(ops, 1000, queue, 2, ci, fail_send, 0, choices, burst)
+    if r != 1:
+        return r
+    left = c17.LAST.get('leftover')
+    if left:
+        return fail(lambda: 'app(scope, receive, send) returned but %d task(s) are still pending: %r  (script %r, queue %d, client %r, '
+                    'fail_send %r, schedule %r, burst %r)' % (len(left), left, [c17.OPS[o] for o in ops], queue, c17.CLIENT[ci], fail_send,
+                                                              choices, burst))
+    return 1
+
+
+def _app_part(ops, queue, nbits, timeout):
+    bits = ', '.join('c%d: bool' % i for i in range(nbits))
+    src = '''
+def h(ci: int, fail_send: int, burst: int, %s) -> int:
+    """
+    pre: 0 <= ci < %d and 0 <= fail_send <= 3 and 0 <= burst <= 2
+    post: _ != 0
+    """
+    return app_case(%r, %d, ci, fail_send, [%s], burst)
+''' % (bits, len(c17.CLIENT), tuple(ops), queue, ', '.join('c%d' % i for i in range(nbits)))
+    return {'name': 'app_q%d_%s' % (queue, '-'.join(str(o) for o in ops)), 'fn': 'h', 'src': src, 'timeout': timeout,
+            'bounds': 'whole falcon.asgi.App WebSocket session, responder script %s (errors of the "propagate" operations reach '
+                      'falcon\'s default handlers), max_receive_queue=%d, client script from a menu of %d, k-th server send() raises (0..3), '
+                      '%d schedule decisions, up to 2 client events arriving back-to-back (server-side queue): C17\'s session oracle, plus '
+                      'no unfinished task after the application callable returns' % ([c17.OPS[o] for o in ops], queue, len(c17.CLIENT), nbits)}
+
+
 def _part(script, nbits, kmax, capmax, timeout):
     bits = ', '.join('c%d: bool' % i for i in range(nbits))
     src = '''
-def h(k: int, cap: int, disc: bool, %s) -> int:
+def h(k: int, cap: int, disc: bool, burst: int, %s) -> int:
     """
-    pre: 0 <= k <= %d and 1 <= cap <= %d
+    pre: 0 <= k <= %d and 1 <= cap <= %d and 0 <= burst <= 2
     post: _ != 0
     """
-    return check_case(k, cap, disc, %r, [%s])
+    return check_case(k, cap, disc, %r, [%s], burst)
 ''' % (bits, kmax, capmax, tuple(script), ', '.join('c%d' % i for i in range(nbits)))
     return {'name': 'script_%s_k%d_cap%d_b%d' % ('-'.join({0: 'recv', 1: 'send', 2: 'close', 3: 'yield', 4: 'rcancel'}[o] for o in script), kmax, capmax, nbits), 'fn': 'h', 'src': src,
             'timeout': timeout,
             'bounds': 'application script accept, %s, close; client messages k in 0..%d then an optional disconnect, queue capacity 1..%d, '
-                      '%d scheduling decisions (environment delivers vs next ready callback) all symbolic' % (
+                      '%d scheduling decisions (environment delivers vs next ready callback), 0..2 further client events arriving back-to-back with a '
+                      'delivery (server-side queue: the next receive() returns without yielding) -- all symbolic' % (
                           [OPS[o] for o in script], kmax, capmax, nbits)}
 
 
@@ -202,7 +250,14 @@ def partitions(tier, seed):
             P.append(_part(s, 10, 3, 3, 200))
         for s in [(0, 1, 0, 0), (4, 0, 1, 0), (1, 0, 0, 2), (0, 0, 4, 1)]:
             P.append(_part(s, 10, 2, 2, 200))
+        for queue, ops in [(1, (0, 12, 15)), (2, (0, 12, 12, 15)), (1, (0, 2, 15)), (2, (0, 3, 15)), (1, (0, 16)), (2, (0, 12, 16)), (1, (0, 3, 16)),
+                           (2, (0, 15, 1))]:
+            P.append(_app_part(ops, queue, 8, 200))
     else:
+        for queue in (1, 2, 3):
+            for ops in [(0, 12, 15), (0, 12, 12, 15), (0, 12, 12, 12, 15), (0, 2, 15), (0, 3, 15), (0, 16), (0, 12, 16), (0, 3, 16), (0, 15, 1),
+                        (0, 16, 15), (0, 3, 12, 15), (15,), (16,), (0, 1, 15), (0, 1, 16)]:
+                P.append(_app_part(ops, queue, 10, 600))
         import itertools
         allscripts = [s for n in (1, 2, 3) for s in itertools.product(range(5), repeat=n)]
         for s in allscripts:
